@@ -32,6 +32,31 @@ the search depth) -/
 def WindowSound (cfg : Cfg) (ps : List (Bytes → Bool)) : Prop :=
   ∀ p ∈ ps, ∀ rb, p (window rb cfg.depth) = true → p rb = true
 
+
+/-- the search window is a suffix of the buffer (same statement as C01's `window_suffix`) -/
+theorem window_is_suffix (rb : Bytes) (d : Nat) : ∃ pre, rb = pre ++ window rb d := by
+  unfold window
+  split
+  · exact ⟨[], rfl⟩
+  · simp only
+    split
+    · split
+      · rename_i i _ _
+        refine ⟨rb.take (rb.length - d) ++ (rb.drop (rb.length - d)).take i, ?_⟩
+        rw [List.append_assoc, List.take_append_drop, List.take_append_drop]
+      · exact ⟨rb.take (rb.length - d), (List.take_append_drop _ _).symm⟩
+    · exact ⟨rb.take (rb.length - d), (List.take_append_drop _ _).symm⟩
+
+/-- "contains this text" is sound on the window -/
+theorem windowSound_isInfix (cfg : Cfg) (needle : Bytes) : WindowSound cfg [isInfix needle] := by
+  intro p hp rb h
+  simp only [List.mem_singleton] at hp
+  subst hp
+  obtain ⟨pre, hpre⟩ := window_is_suffix rb cfg.depth
+  obtain ⟨a, b, hab⟩ := (isInfix_iff _ _).mp h
+  rw [hpre, hab]
+  exact (isInfix_iff _ _).mpr ⟨pre ++ a, b, by simp⟩
+
 /-! ## the read loop -/
 
 theorem readC_split (P : Bytes → Bool) (q : List Bytes) (rb : Bytes) :
@@ -386,6 +411,123 @@ theorem loop_segs_ne_nil {σ : Type} (cfg : Cfg) (complete : List (Bytes → Boo
     (loop cfg complete dev (e :: es) s b).segs ≠ [] := by
   simp only [loop]
   split <;> simp
+
+
+/-! ## well-formed scripted dialogues -/
+
+theorem readC_exact (P : Bytes → Bool) (pre chunks rest : List Bytes)
+    (hpre : pre.flatten = []) (hne : chunks.flatten ≠ []) (h : ExactAt P chunks.flatten) :
+    (readC P (pre ++ chunks ++ rest) []).1 = true ∧
+    (readC P (pre ++ chunks ++ rest) []).2.1.flatten = chunks.flatten ∧
+    ∃ tail, (readC P (pre ++ chunks ++ rest) []).2.2 = tail ++ rest ∧ tail.flatten = [] := by
+  obtain ⟨tail, ht, htf⟩ := readUntil_exact P pre chunks rest hpre hne h
+  rw [readC_eq_readUntil] at ht
+  split at ht
+  · rename_i h1
+    simp only [List.nil_append, Option.some.injEq, Prod.mk.injEq] at ht
+    exact ⟨h1, ht.1, tail, ht.2, htf⟩
+  · simp at ht
+
+/-- one turn of a scripted dialogue: what the device emits in reaction to the input and to the
+return, each already cut into reads -/
+structure Turn where
+  echo : List Bytes
+  resp : List Bytes
+
+/-- the bytes the read after the return has to consume: the response, preceded by the echo when
+no echo read is performed -/
+def Turn.stream (cfg : Cfg) (e : Event) (t : Turn) : List Bytes :=
+  if echoAwaited e && !echoImmediate cfg e.input then t.resp else t.echo ++ t.resp
+
+/-- a turn is well formed for event `e`: each read's predicate first holds exactly at the end of
+what the device emits for it (C01's `ExactAt`, on the very predicates the code evaluates), and the
+turn does not show a complete pattern unless it is the last one -/
+def TurnOK (cfg : Cfg) (complete : List (Bytes → Bool)) (last : Bool) (e : Event) (t : Turn) : Prop :=
+  ((echoAwaited e && !echoImmediate cfg e.input) = true →
+    t.echo.flatten ≠ [] ∧ ExactAt (echoPred cfg e.input) t.echo.flatten) ∧
+  (t.stream cfg e).flatten ≠ [] ∧
+  ExactAt (anyPred (complete ++ [e.resp.getD cfg.promptP]) cfg) (t.stream cfg e).flatten ∧
+  (last = false → ¬ Completed complete (t.stream cfg e).flatten)
+
+theorem stepEvent_exact (cfg : Cfg) (complete : List (Bytes → Bool)) (last : Bool) (e : Event)
+    (t : Turn) (q0 : List Bytes) (rest : List (List Bytes)) (hq : q0.flatten = [])
+    (h : TurnOK cfg complete last e t) :
+    let o := stepEvent cfg complete scriptDev last e { q := q0, d := t.echo :: t.resp :: rest }
+    o.out = .cont ∧ o.st.q.flatten = [] ∧ o.st.d = rest ∧
+    o.b = t.echo.flatten ++ t.resp.flatten ∧ o.seg.ret = some cfg.ret := by
+  obtain ⟨hecho, hne, hex, hnc⟩ := h
+  by_cases haw : (echoAwaited e && !echoImmediate cfg e.input) = true
+  · -- echo read, then response read
+    obtain ⟨hne1, hex1⟩ := hecho haw
+    have hs : t.stream cfg e = t.resp := by simp [Turn.stream, haw]
+    rw [hs] at hne hex hnc
+    simp only [Bool.and_eq_true, Bool.not_eq_true'] at haw
+    obtain ⟨e1, e2, tail1, e3, e4⟩ := readC_exact (echoPred cfg e.input) q0 t.echo [] hq hne1 hex1
+    simp only [List.append_nil] at e1 e2 e3
+    obtain ⟨r1, r2, tail2, r3, r4⟩ :=
+      readC_exact (anyPred (complete ++ [e.resp.getD cfg.promptP]) cfg) tail1 t.resp [] e4 hne hex
+    simp only [List.append_nil] at r1 r2 r3
+    have hcond : ∀ x : Bytes, x = t.resp.flatten →
+        (!last && !complete.isEmpty && complete.any fun p => p x) = false := by
+      intro x hx
+      subst hx
+      cases last with
+      | true => simp
+      | false =>
+        have := hnc rfl
+        simp only [Completed, Bool.not_eq_true] at this
+        rw [this]
+        simp
+    intro o
+    have ho : o = stepEvent cfg complete scriptDev last e { q := q0, d := t.echo :: t.resp :: rest } := rfl
+    simp only [stepEvent, St.write, scriptDev, eventEcho, echoRead, haw.1, haw.2, if_true,
+      Bool.false_eq_true, if_false, e1, e3, r1, r3, Bool.not_true, hcond _ r2] at ho
+    rw [ho]
+    exact ⟨rfl, r4, rfl, by simp only [e2, r2], rfl⟩
+  · -- no echo read: the read after the return consumes echo and response
+    have hs : t.stream cfg e = t.echo ++ t.resp := by simp [Turn.stream, haw]
+    rw [hs] at hne hex hnc
+    obtain ⟨r1, r2, tail2, r3, r4⟩ :=
+      readC_exact (anyPred (complete ++ [e.resp.getD cfg.promptP]) cfg) q0 (t.echo ++ t.resp) [] hq hne hex
+    simp only [List.append_nil] at r1 r2 r3
+    have hcond : ∀ x : Bytes, x = (t.echo ++ t.resp).flatten →
+        (!last && !complete.isEmpty && complete.any fun p => p x) = false := by
+      intro x hx
+      subst hx
+      cases last with
+      | true => simp
+      | false =>
+        have := hnc rfl
+        simp only [Completed, Bool.not_eq_true] at this
+        rw [this]
+        simp
+    intro o
+    have ho : o = stepEvent cfg complete scriptDev last e { q := q0, d := t.echo :: t.resp :: rest } := rfl
+    by_cases ha : echoAwaited e = true
+    · have hi : echoImmediate cfg e.input = true := by
+        simp only [ha, Bool.true_and, Bool.not_eq_true', Bool.not_eq_false] at haw
+        exact haw
+      simp only [stepEvent, St.write, scriptDev, eventEcho, echoRead, ha, hi, if_true,
+        Bool.false_eq_true, if_false, r1, r3, Bool.not_true, hcond _ r2, List.append_assoc] at ho
+      rw [ho]
+      refine ⟨rfl, r4, rfl, ?_, rfl⟩
+      simp only [r2]
+      simp
+    · simp only [stepEvent, St.write, scriptDev, eventEcho, ha,
+        Bool.false_eq_true, if_false, r1, r3, Bool.not_true, hcond _ r2, List.append_assoc] at ho
+      rw [ho]
+      refine ⟨rfl, r4, rfl, ?_, rfl⟩
+      simp only [r2]
+      simp
+
+/-- a scripted dialogue is well formed for an event list: turn by turn -/
+def DialogueOK (cfg : Cfg) (complete : List (Bytes → Bool)) : List Event → List Turn → Prop
+  | [], [] => True
+  | e :: es, t :: ts => TurnOK cfg complete es.isEmpty e t ∧ DialogueOK cfg complete es ts
+  | _, _ => False
+
+/-- the reactions of the scripted device: per turn, one to the input and one to the return -/
+def script (ts : List Turn) : List (List Bytes) := ts.flatMap fun t => [t.echo, t.resp]
 
 
 end Scrapli.Inter
